@@ -160,6 +160,8 @@ class Driver:
         RE.ignore_callback_exceptions = bool(recfg.get("ignore_callback_exceptions", False))
         RE.msg_hook = self._msg_hook
         RE.state_hook = self._state_hook
+        if case.get("sim", {}).get("trace_commands", True):
+            self._wrap_commands()
         self._recorder_token = RE.subscribe(self._recorder)
         self.ctx.suspenders = {}
         for sid, spec in sorted(case.get("suspenders", {}).items()):
@@ -179,6 +181,36 @@ class Driver:
         res.RE = RE
 
     # -- hooks -------------------------------------------------------------------------
+    def _wrap_commands(self):
+        """Observe each command's completion through the public register_command() seam.
+
+        The wrapper awaits the original coroutine directly (no extra suspension point), so the
+        schedule is unchanged; it records whether the command returned, raised or was cancelled."""
+        import asyncio
+
+        RE, sim, ctx = self.RE, self.sim, self.ctx
+
+        def wrap(name, fn):
+            async def traced(msg):
+                mid = ctx.mid_of(msg)
+                try:
+                    r = await fn(msg)
+                except asyncio.CancelledError:
+                    sim.record("cmd", mid=mid, cmd=name, end="cancelled", state=str(RE.state))
+                    raise
+                except Exception as e:
+                    sim.record("cmd", mid=mid, cmd=name, end="error", exc=type(e).__name__)
+                    raise
+                ctx.cmd_results[mid] = r
+                sim.record("cmd", mid=mid, cmd=name, end="ok", value=summarize(r))
+                return r
+
+            traced.__doc__ = fn.__doc__
+            return traced
+
+        for name in list(RE.commands):
+            RE.register_command(name, wrap(name, RE._command_registry[name]))
+
     def _msg_hook(self, msg):
         RE = self.RE
         mid = self.ctx.mid_of(msg)
